@@ -9,6 +9,7 @@
    the extracted [run_measure] is run on the same matrices as the implementation. *)
 From Coq Require Import QArith List Arith Permutation.
 From BCT Require Import Base.Mat Base.SumQ Model.SymTerm Proofs.SymTerm Proofs.SymTermLib.
+From BCT Require Import Gen.SymTermGen Model.SymTermGenRun Proofs.SymTermGenThm.
 Import ListNotations.
 Open Scope Q_scope.
 
@@ -154,6 +155,39 @@ Theorem C04_denote_transitivity_bu : forall prims n A ci ks,
   / (sumQ (fun i => sumQ (fun j => sumQ (fun k => A i k * A k j) n) n) n - sumQ (fun i => sumQ (fun k => A i k * A k i) n) n).
 Proof. exact denote_transitivity_bu. Qed.
 
+(* ---------- programs REGENERATED from the Python source on every run (Gen/SymTermGen.v, harness/translate_symterm.py) ----------
+   gen_table : list (string * prog) is whatever the translator read in the tree that is checked now.  ONE theorem for the
+   whole table, independent of its length and of the shape of its entries: each generated program, as a measure, is
+   equivariant for every size, renumbering, input and interpretation of sqrt / cbrt. *)
+Theorem C04_gen_equivariant : forall prims, (forall k a b, a == b -> prims k a == prims k b) ->
+  forall n p, perm_on n p ->
+  forall name pr, In (name, pr) gen_table -> forall A ci ks,
+  eval_s prims n pr (pm p A) (pv p ci) ks == eval_s prims n pr A ci ks /\
+  (forall i, eval_v prims n pr (pm p A) (pv p ci) ks i == eval_v prims n pr A ci ks (p i)) /\
+  (forall i j, eval_m prims n pr (pm p A) (pv p ci) ks i j == eval_m prims n pr A ci ks (p i) (p j)).
+Proof. exact gen_equivariant. Qed.
+(* the same for what the extracted driver prints (run_gen idx on lists), A[ix_(l,l)] for any permutation list l *)
+Theorem C04_gen_run_equivariant : forall prims, (forall k a b, a == b -> prims k a == prims k b) ->
+  forall idx n A ci ks l, square n A -> List.length ci = n -> Permutation l (seq 0 n) ->
+  let p := ext_perm l in
+  let r' := run_gen prims idx (permA l A) (permv l ci) ks in
+  let r := run_gen prims idx A ci ks in
+  match out_kind (gen_prog idx) with
+  | KS => res_at r' 0 0 == res_at r 0 0
+  | KV => forall i, (i < n)%nat -> res_at r' 0 i == res_at r 0 (p i)
+  | KM => forall i j, (i < n)%nat -> (j < n)%nat -> res_at r' i j == res_at r (p i) (p j)
+  end.
+Proof. exact gen_run_equivariant. Qed.
+(* generated vs hand-written: when the (extracted) syntactic comparison answers true the two ARE the same program,
+   hence agree on every input; otherwise the harness compares them by evaluation on the sampled inputs *)
+Theorem C04_gen_same_as_hand_sound : forall idx id k, gen_same_as_hand idx id k = true ->
+  gen_prog idx = measure_by_id id k /\
+  forall prims A ci ks, run_gen prims idx A ci ks = run_measure prims id k A ci ks.
+Proof. exact gen_same_as_hand_sound. Qed.
+(* the table is not empty (vm_compute on the closed generated list) *)
+Example C04_gen_nonvacuous : (1 <=? gen_count)%nat = true.
+Proof. vm_compute. reflexivity. Qed.
+
 (* ---------- non-vacuity ---------- *)
 Definition idp : nat -> Q -> Q := fun _ x => x.
 (* a 4-node graph: path 0-1-2 plus the isolated node 3, renumbered by l = [2;3;0;1] *)
@@ -224,3 +258,6 @@ Print Assumptions C04_run_equivariant.
 Print Assumptions C04_every_term_measure_equivariant.
 Print Assumptions C04_denote_degrees_und.
 Print Assumptions C04_denote_transitivity_bu.
+Print Assumptions C04_gen_equivariant.
+Print Assumptions C04_gen_run_equivariant.
+Print Assumptions C04_gen_same_as_hand_sound.
